@@ -162,6 +162,11 @@ def step (line : String) : String :=
     match pad.toNat?, gapFile (pad.toNat?.getD 0) (unhex file) with
     | some _, some f => "ok " ++ toHex f
     | _, _ => "err"
+  | ["mergefiles", fa, fb] =>
+    -- the row groups of the second file appended to those of the first under one footer
+    match mergeFiles (unhex fa) (unhex fb) with
+    | some f => "ok " ++ toHex f
+    | none => "err"
   | ["gen-levels", rts] =>
     -- the generator's level arithmetic on one chain (r = required, o = optional, m = repeated)
     let l := (if rts = "-" then [] else rts.toList).mapM fun c =>
